@@ -28,7 +28,14 @@ TRUSTED = ['Model/TracePipeline.lean written statement by statement like PyKdebu
            'tests them against CPython)',
            'Model/Trace.lean (whole TracesParser), Model/Filters.lean (event-level filter), Model/Callstacks.lean as tied by '
            'their own properties (C05/C07/C08/C20, C12, C15)',
-           'the version-2 container parser is replaced in the model by its result (thread map + records; C02)']
+           'the version-2 container parser is replaced in the model by its result (thread map + records; C02)',
+           'the command-line glue in front of traces() / callstacks() / os_log_events() - the callbacks traces / callstacks / logs of '
+           '__main__.py with their option declarations, print_with_count, PyKdebugParser.__init__, formatted_traces / _callstacks / '
+           '_logs - is tied to the SOURCE TEXT by translation (tools/gen_pyir_cli.py -> Gen/PyIRCli, cli_source_is_expected_ir, '
+           'traces_command_ir_eq_model, traces_command_ir_eq_e2e, callstacks_command_ir_eq_model, logs_command_ir_eq_model, '
+           'formatted_traces / _callstacks / _logs _ir_eq_model); trusted for that: that translator, the interpreter Model/PyIRCli '
+           '(sections cli-glue / cli-decls / cli-init / cli-formatted / cli-pwc-raise test them against click / CPython) and click\'s '
+           'parsing of the command line']
 ASSUMPTIONS = ['a request\'s generator is consumed to its end (or to the exception): the generators are lazy, an unconsumed '
                'request does nothing',
                'version-2 dumps: the thread map of the header resets both lookup tables at the start of every request',
@@ -688,6 +695,8 @@ def correspondence(rep, rng, tier):
                 kind_fn=lambda c, g: 'fc=%s fs=%s' % (c['cfg']['classes'], c['cfg']['subclasses']),
                 rule='finding stream (outside the claim): a subclass of DBG_TRACE, or of DBG_FSYSTEM next to a BSD request, '
                      'requested without its class')
+    from .. import cliir
+    cliir.section(rep, rng, tier, 'C13', commands=('traces', 'callstacks', 'logs'))   # the glue in front of traces() / callstacks() / logs
 
 
 SECTIONS = ('trace-filters', 'trace-requests', 'traces-ir', 'trace-filters-K3', 'trace-filters-helper-subclass')
@@ -700,6 +709,9 @@ def replay(path):
         print(json.dumps(r, indent=1)[:4000])
         return 1
     case = r['replay']['case']
+    if r['replay'].get('section') in ('cli-glue', 'cli-pwc-raise', 'cli-decls', 'cli-init', 'cli-formatted'):
+        from .. import cliir
+        return cliir.replay(r['replay'], 'C13', path)
     if r['replay'].get('section') == 'trace-lazy-requests':
         bad = 0
         print('filters:', case['cfg'], ' class lists:', case['lists'], ' shape:', case['shape'])
@@ -756,13 +768,21 @@ LEVEL_TEXT = ('Lean theorems over the object-state model of PyKdebugParser.trace
               'configuration the translated traces(), interpreted, hands kevents effectiveClasses on a COPY, leaves the filter '
               'attributes alone and its stages keep exactly postFilter), filter_process_callback_ir_eq_model, '
               'traces_request_rests_on_ir (fedEvents / traces of the model are the interpreted source around the TracesParser '
-              'model).')
+              'model).  The command-line glue in front, translated as well (tools/gen_pyir_cli.py -> Gen/PyIRCli, Model/PyIRCli): '
+              'cli_source_is_expected_ir, traces_command_ir_eq_model (every combination of the seven options: the object handed to '
+              'formatted_traces reads as exactly configOf / showOf / colour of the options in force, declared defaults included, the '
+              'two lists as fresh lists; printed through print_with_count), traces_command_ir_eq_e2e (--no-color: = print_with_count of '
+              'EndToEnd.formattedTraces under configOf, for every byte string), callstacks_command_ir_eq_model, '
+              'logs_command_ir_eq_model, formatted_traces / formatted_callstacks / formatted_logs _ir_eq_model (map of the builder over '
+              'the listing, code table handed on as given, same exception).')
 LEVEL_NOTE = ('traces_commute_class compares handler, first record, payload, text and decoded fields (not the event list, which '
               'loses the records of other classes; not thread-terminate\'s text: K3b) and assumes a code table closed under the '
               'filter (checked for the bundled table at run time).  The process filter commutes only under an explicit '
               'hypothesis: known finding K3 (attribution records removed by the event-level filter).  Out of the claim: '
               'subclasses of the helper classes (K13).  Translation tie: trusted are the translator tools/gen_pyir_fl.py and the '
               'interpreter Model/PyIRFl (tested against CPython by the section traces-ir); TracesParser, the container parser and '
-              'callstacks() stay hand-modelled.')
+              'callstacks() stay hand-modelled.  Glue: trusted are tools/gen_pyir_cli.py, the interpreter Model/PyIRCli and click\'s own '
+              'parsing; the meaning of formatted_traces / _callstacks / _logs is a parameter of the command theorems (instantiated with '
+              'EndToEnd.formattedTraces for --no-color).')
 TECHNIQUE = ('Lean 4 proofs over an explicit object-state model + translation validation of traces() / _filter_process_callback '
              '+ differential correspondence + oracle computed on the real code')
